@@ -1,7 +1,370 @@
 import Dhcp.Driver.Hex
-/- Line-protocol operations of the `V4Acc` family (stub until the model lands). -/
-namespace Dhcp.Driver
+import Dhcp.Driver.V4
+import Dhcp.V4.Values
+/-
+  Line-protocol operations of the `V4Acc` family (typed accessors, C17).
 
-def stepV4Acc (_op : String) (_args : List String) : Option String := none
+    v4acc <Accessor> <present> <valuehex> <def> <decoys>
+        present: 0 = key absent, 1 = key holds <valuehex> (`-` = empty non-nil
+        slice), 2 = key holds a nil slice; <def> = default duration in ns
+        (used by the three lease-time accessors); <decoys> = `-` or
+        `code:hex,…` other options in the map (a decoy under the accessor's own
+        code is dropped).
+      → `ok <canonical result>`
+    v4setget <Constructor> <arg> <def>
+        builds the option with the typed constructor, `UpdateOption`s it into
+        an empty packet and reads it back with the matching accessor
+      → `ok raw=<nil|hex> get=<canonical result>` | `panic`
+
+  Canonical results: address `nil|hex`; lists `nil`, `[]` (empty non-nil) or
+  comma separated elements; strings as hex; durations in integer ns;
+  `(value, bool)` pairs as `<value> true|false`; `(uint16, error)` as the
+  number or `err`; routes `desthex/width>routerhex`; relay sub-options
+  `{code:hex,…}` sorted by code; VIVC `entid:hex`.
+-/
+namespace Dhcp.Driver
+open Dhcp Dhcp.V4
+
+def showList {α} (sh : α → String) : Option (List α) → String
+  | none => "nil"
+  | some [] => "[]"
+  | some xs => ",".intercalate (xs.map sh)
+
+def showBool (b : Bool) : String := if b then "true" else "false"
+
+def showRoute (r : Route) : String := s!"{hex r.dest}/{r.width}>{hexOpt r.router}"
+def showVIVC (i : VIVCId) : String := s!"{i.entID}:{hex i.data}"
+def showRelay : Option Opts → String
+  | none => "nil"
+  | some o => "{" ++ ",".intercalate (o.toList.map (fun (k, v) => s!"{k.toNat}:{hex v}")) ++ "}"
+def showResNat : Res Nat → String
+  | .ok n => toString n
+  | .err => "err"
+  | .panic => "panic"
+
+/-- accessor name ↦ (option code it is fed through, rendering of its result) -/
+def accessors : List (String × UInt8 × (GOpts → Int → String)) :=
+  [ ("BroadcastAddress", Code.broadcastAddress, fun o _ => hexOpt (Acc.broadcastAddress o)),
+    ("RequestedIPAddress", Code.requestedIPAddress, fun o _ => hexOpt (Acc.requestedIPAddress o)),
+    ("ServerIdentifier", Code.serverIdentifier, fun o _ => hexOpt (Acc.serverIdentifier o)),
+    ("Router", Code.router, fun o _ => showList hexOpt (Acc.router o)),
+    ("NTPServers", Code.ntpServers, fun o _ => showList hexOpt (Acc.ntpServers o)),
+    ("NetBIOSNameServers", Code.netBIOSNameServers, fun o _ => showList hexOpt (Acc.netBIOSNameServers o)),
+    ("DNS", Code.dns, fun o _ => showList hexOpt (Acc.dns o)),
+    ("DomainName", Code.domainName, fun o _ => hex (Acc.domainName o)),
+    ("HostName", Code.hostName, fun o _ => hex (Acc.hostName o)),
+    ("RootPath", Code.rootPath, fun o _ => hex (Acc.rootPath o)),
+    ("BootFileNameOption", Code.bootfileName, fun o _ => hex (Acc.bootFileNameOption o)),
+    ("TFTPServerName", Code.tftpServerName, fun o _ => hex (Acc.tftpServerName o)),
+    ("ClassIdentifier", Code.classIdentifier, fun o _ => hex (Acc.classIdentifier o)),
+    ("Message", Code.message, fun o _ => hex (Acc.message o)),
+    ("IPAddressLeaseTime", Code.ipAddressLeaseTime, fun o d => toString (Acc.ipAddressLeaseTime o d)),
+    ("IPAddressRenewalTime", Code.renewalTime, fun o d => toString (Acc.ipAddressRenewalTime o d)),
+    ("IPAddressRebindingTime", Code.rebindingTime, fun o d => toString (Acc.ipAddressRebindingTime o d)),
+    ("IPv6OnlyPreferred", Code.ipv6OnlyPreferred, fun o _ =>
+        let (d, b) := Acc.ipv6OnlyPreferred o; s!"{d} {showBool b}"),
+    ("MaxMessageSize", Code.maxMessageSize, fun o _ => showResNat (Acc.maxMessageSize o)),
+    ("AutoConfigure", Code.autoConfigure, fun o _ =>
+        let (v, b) := Acc.autoConfigure o; s!"{v.toNat} {showBool b}"),
+    ("MessageType", Code.messageType, fun o _ => toString (Acc.messageType o).toNat),
+    ("SubnetMask", Code.subnetMask, fun o _ => hexOpt (Acc.subnetMask o)),
+    ("ClasslessStaticRoute", Code.classlessStaticRoute, fun o _ => showList showRoute (Acc.classlessStaticRoute o)),
+    ("ParameterRequestList", Code.parameterRequestList, fun o _ =>
+        showList (fun c => toString c.toNat) (Acc.parameterRequestList o)),
+    ("RelayAgentInfo", Code.relayAgentInfo, fun o _ => showRelay (Acc.relayAgentInfo o)),
+    ("UserClass", Code.userClass, fun o _ => showList hex (Acc.userClass o)),
+    ("VIVC", Code.vivc, fun o _ => showList showVIVC (Acc.vivc o)),
+    ("ClientArch", Code.clientArch, fun o _ => showList toString (Acc.clientArch o)),
+    ("DomainSearch", Code.domainSearch, fun o _ =>
+        match Acc.domainSearch o with
+        | .ok none => "nil"
+        | .ok (some l) => showList hex (some l.labels)
+        | _ => "panic") ]
+
+def findAcc (name : String) : Option (UInt8 × (GOpts → Int → String)) :=
+  (accessors.find? (fun e => e.1 == name)).map (·.2)
+
+def parseDecoys (s : String) (own : UInt8) : Option GOpts :=
+  if s == "-" then some GOpts.empty
+  else
+    (s.splitOn ",").foldlM (fun (o : GOpts) t =>
+      match t.splitOn ":" with
+      | [k, v] => do
+        let k ← k.toNat?
+        let v ← unhexOpt v
+        pure (if UInt8.ofNat k = own then o else o.update (UInt8.ofNat k) v)
+      | _ => none) GOpts.empty
+
+/-! arguments of the constructors -/
+
+def parseListOf {α} (p : String → Option α) (s : String) : Option (List α) :=
+  if s == "[]" then some [] else (s.splitOn ",").mapM p
+
+def parseRouteArg (s : String) : Option RouteArg :=
+  match s.splitOn ":" with
+  | [w, d, r] => do
+    let w ← w.toNat?
+    let d ← unhexOpt d
+    let r ← unhexOpt r
+    pure ⟨d, w, r⟩
+  | _ => none
+
+def parseVIVC (s : String) : Option VIVCId :=
+  match s.splitOn ":" with
+  | [e, d] => do
+    let e ← e.toNat?
+    let d ← unhex d
+    pure ⟨e, d⟩
+  | _ => none
+
+def parseSub (s : String) : Option (UInt8 × Bytes) :=
+  match s.splitOn ":" with
+  | [k, v] => do
+    let k ← k.toNat?
+    let v ← unhex v
+    pure (UInt8.ofNat k, v)
+  | _ => none
+
+/-- constructor name ↦ (matching accessor, model of `Opt…(arg).Value.ToBytes()`) -/
+def constructors : List (String × String × (String → Option (Res GoBytes))) :=
+  let ip := fun s => (unhexOpt s).map (fun ip => Res.ok (ipToBytes ip))
+  let ips := fun s => (parseListOf unhexOpt s).map (fun l => Res.ok (ipsToBytes l))
+  let dur := fun (s : String) => s.toInt?.map (fun d => Res.ok (durationToBytes d))
+  let str := fun s => (unhex s).map (fun b => Res.ok (stringToBytes b))
+  [ ("OptBroadcastAddress", "BroadcastAddress", ip),
+    ("OptRequestedIPAddress", "RequestedIPAddress", ip),
+    ("OptServerIdentifier", "ServerIdentifier", ip),
+    ("OptRouter", "Router", ips),
+    ("OptNTPServers", "NTPServers", ips),
+    ("OptNetBIOSNameServers", "NetBIOSNameServers", ips),
+    ("OptDNS", "DNS", ips),
+    ("OptIPAddressLeaseTime", "IPAddressLeaseTime", dur),
+    ("OptRenewTimeValue", "IPAddressRenewalTime", dur),
+    ("OptRebindingTimeValue", "IPAddressRebindingTime", dur),
+    ("OptIPv6OnlyPreferred", "IPv6OnlyPreferred", dur),
+    ("OptDomainName", "DomainName", str),
+    ("OptHostName", "HostName", str),
+    ("OptRootPath", "RootPath", str),
+    ("OptBootFileName", "BootFileNameOption", str),
+    ("OptTFTPServerName", "TFTPServerName", str),
+    ("OptClassIdentifier", "ClassIdentifier", str),
+    ("OptMessage", "Message", str),
+    ("OptUserClass", "UserClass", str),
+    ("OptRFC3004UserClass", "UserClass", fun s =>
+        (parseListOf unhex s).map (fun l => Res.ok (stringsToBytes l))),
+    ("OptMaxMessageSize", "MaxMessageSize", fun s => s.toNat?.map (fun n => Res.ok (uint16ToBytes n))),
+    ("OptAutoConfigure", "AutoConfigure", fun s => s.toNat?.map (fun n => Res.ok (some [UInt8.ofNat n]))),
+    ("OptMessageType", "MessageType", fun s => s.toNat?.map (fun n => Res.ok (some [UInt8.ofNat n]))),
+    ("OptSubnetMask", "SubnetMask", fun s => (unhexOpt s).map (fun m => Res.ok (maskToBytes m))),
+    ("OptClasslessStaticRoute", "ClasslessStaticRoute", fun s =>
+        (parseListOf parseRouteArg s).map routesToBytes),
+    ("OptParameterRequestList", "ParameterRequestList", fun s =>
+        (parseListOf (fun t => t.toNat?.map UInt8.ofNat) s).map (fun l => Res.ok (codesToBytes l))),
+    ("OptRelayAgentInfo", "RelayAgentInfo", fun s =>
+        (parseListOf parseSub s).map (fun l => Res.ok (relayToBytes (Opts.ofList l)))),
+    ("OptVIVC", "VIVC", fun s => (parseListOf parseVIVC s).map (fun l => Res.ok (vivcToBytes l))),
+    ("OptClientArch", "ClientArch", fun s =>
+        (parseListOf String.toNat? s).map (fun l => Res.ok (archsToBytes l))),
+    ("OptDomainSearch", "DomainSearch", fun s =>
+        (parseListOf unhex s).map (fun ns => labelsGoBytes { original := none, labels := ns })) ]
+
+/-! ### set/get histories (`v4hist`)
+
+    v4hist <Constructor> <present> <valuehex> <def> <step>…
+
+A packet holding the raw value (as in `v4acc`) and a register `x` for the
+typed value a caller works on.  Steps:
+  `g`        x = accessor()                 (nil label set: `NewLabels()`)
+  `s:i:e`    x[i] = e in place (no-op when i is out of range)
+  `a:e`      x = append(x, e)        `d:i`  delete element i
+  `r:arg`    x = a fresh value (constructor argument syntax)
+  `R`        label sets: Labels = a fresh copy of the names parsed at `g`
+  `u`        UpdateOption(Constructor(x))
+  `w`        packet = FromBytes(packet.ToBytes())
+  `o`        output the accessor's result
+Output: `ok <result> | <result> …`, or `panic`.
+Outside label sets the register is a list of element tokens in constructor
+argument syntax (addresses and masks: one token per octet), so that the
+edits are the generic list edits; scalars are a one-token list. -/
+
+/-- constructor ↦ kind of its typed value (as in the Go harness) -/
+def histKind (ctor : String) : String :=
+  match ctor with
+  | "OptBroadcastAddress" | "OptRequestedIPAddress" | "OptServerIdentifier" => "ip"
+  | "OptRouter" | "OptNTPServers" | "OptNetBIOSNameServers" | "OptDNS" => "ips"
+  | "OptIPAddressLeaseTime" | "OptRenewTimeValue" | "OptRebindingTimeValue" | "OptIPv6OnlyPreferred" => "dur"
+  | "OptUserClass" => "ucstr"
+  | "OptRFC3004UserClass" => "strings"
+  | "OptMaxMessageSize" => "u16"
+  | "OptAutoConfigure" | "OptMessageType" => "u8"
+  | "OptSubnetMask" => "mask"
+  | "OptClasslessStaticRoute" => "routes"
+  | "OptParameterRequestList" => "codes"
+  | "OptRelayAgentInfo" => "relay"
+  | "OptVIVC" => "vivc"
+  | "OptClientArch" => "archs"
+  | "OptDomainSearch" => "labels"
+  | _ => "str"
+
+def pairUp : List Char → List String
+  | a :: b :: rest => String.ofList [a, b] :: pairUp rest
+  | _ => []
+
+def firstWord (s : String) : String := ((s.splitOn " ").head?).getD s
+
+/-- `dest/width>router` → `width:dest:router` -/
+def routeTok (s : String) : String :=
+  match s.splitOn ">" with
+  | [dw, r] =>
+    match dw.splitOn "/" with
+    | [d, w] => s!"{w}:{d}:{r}"
+    | _ => s
+  | _ => s
+
+def splitNonEmpty (s : String) : List String := if s.isEmpty then [] else s.splitOn ","
+
+/-- tokens of a rendered accessor result -/
+def toksOfResult (kind res : String) : List String :=
+  match kind with
+  | "ip" | "mask" => if res == "nil" || res == "-" then [] else pairUp res.toList
+  | "dur" | "u8" => [firstWord res]
+  | "u16" => [if res == "err" then "0" else res]
+  | "str" | "strz" => [res]
+  | "ucstr" => if res == "nil" || res == "[]" then ["-"] else [((res.splitOn ",").head?).getD "-"]
+  | "routes" => if res == "nil" || res == "[]" then [] else (res.splitOn ",").map routeTok
+  | "relay" =>
+    if res == "nil" then [] else splitNonEmpty ((res.drop 1).dropEnd 1).toString
+  | _ => if res == "nil" || res == "[]" then [] else res.splitOn ","
+
+/-- tokens of a constructor argument -/
+def toksOfArg (kind arg : String) : List String :=
+  match kind with
+  | "ip" | "mask" => if arg == "nil" || arg == "-" then [] else pairUp arg.toList
+  | "dur" | "u8" | "u16" | "str" | "strz" | "ucstr" => [arg]
+  | _ => if arg == "[]" then [] else arg.splitOn ","
+
+/-- constructor argument of a token list -/
+def argOfToks (kind : String) (ts : List String) : String :=
+  match kind with
+  | "ip" | "mask" => if ts.isEmpty then "nil" else String.join ts
+  | "dur" | "u8" | "u16" => (ts.head?).getD "0"
+  | "str" | "strz" | "ucstr" => (ts.head?).getD "-"
+  | _ => if ts.isEmpty then "[]" else ",".intercalate ts
+
+/-- relay sub-options live in a map: after every edit the token list is the
+map's content again (later tokens win, ascending codes) -/
+def canonRelay (ts : List String) : List String :=
+  match ts.mapM parseSub with
+  | none => ts
+  | some kvs => (Opts.ofList kvs).toList.map (fun (k, v) => s!"{k.toNat}:{hex v}")
+
+def canonToks (kind : String) (ts : List String) : List String :=
+  if kind == "relay" then canonRelay ts else ts
+
+inductive HReg where
+  | toks (ts : List String)
+  | labs (l : Label.Labels) (parsed : List Bytes)
+
+structure HState where
+  o : GOpts
+  reg : HReg
+  outs : List String
+  panicked : Bool := false
+
+def histStep (kind : String) (code : UInt8) (render : GOpts → Int → String)
+    (toBytes : String → Option (Res GoBytes)) (d : Int) (st : HState) (step : String) : Option HState :=
+  match step.splitOn ":" with
+  | ["g"] =>
+    if kind == "labels" then
+      match Acc.domainSearch st.o with
+      | .ok (some l) => some { st with reg := .labs l l.labels }
+      | .ok none => some { st with reg := .labs Label.Labels.new [] }
+      | _ => some { st with panicked := true }
+    else some { st with reg := .toks (toksOfResult kind (render st.o d)) }
+  | ["u"] =>
+    match st.reg with
+    | .labs l _ =>
+      match labelsGoBytes l with
+      | .ok raw => some { st with o := st.o.update code raw }
+      | _ => some { st with panicked := true }
+    | .toks ts => do
+      let r ← toBytes (argOfToks kind ts)
+      match r with
+      | .ok raw => pure { st with o := st.o.update code raw }
+      | _ => pure { st with panicked := true }
+  | ["w"] => some { st with o := st.o.wire }
+  | ["o"] => some { st with outs := st.outs ++ [render st.o d] }
+  | ["R"] =>
+    match st.reg with
+    | .labs l p => some { st with reg := .labs { l with labels := p } p }
+    | r => some { st with reg := r }
+  | "s" :: i :: erest => do
+    let e := ":".intercalate erest
+    let i ← i.toNat?
+    match st.reg with
+    | .labs l p => do
+      let n ← unhex e
+      pure { st with reg := .labs { l with labels := if i < l.labels.length then l.labels.set i n else l.labels } p }
+    | .toks ts => pure { st with reg := .toks (canonToks kind (if i < ts.length then ts.set i e else ts)) }
+  | "a" :: erest =>
+    let e := ":".intercalate erest
+    match st.reg with
+    | .labs l p => do
+      let n ← unhex e
+      pure { st with reg := .labs { l with labels := l.labels ++ [n] } p }
+    | .toks ts => some { st with reg := .toks (canonToks kind (ts ++ [e])) }
+  | ["d", i] => do
+    let i ← i.toNat?
+    match st.reg with
+    | .labs l p => pure { st with reg := .labs { l with labels := l.labels.eraseIdx i } p }
+    | .toks ts => pure { st with reg := .toks (ts.eraseIdx i) }
+  | "r" :: rest =>
+    -- the argument may itself contain ':' (routes, relay, vivc)
+    let arg := ":".intercalate rest
+    match st.reg with
+    | .labs l p => do
+      let ns ← parseListOf unhex arg
+      pure { st with reg := .labs { l with labels := ns } p }
+    | .toks _ => some { st with reg := .toks (canonToks kind (toksOfArg kind arg)) }
+  | _ => none
+
+def stepV4Acc (op : String) (args : List String) : Option String :=
+  match op, args with
+  | "v4acc", [name, present, h, dflt, decoys] => do
+    let (code, render) ← findAcc name
+    let v ← unhex h
+    let d ← dflt.toInt?
+    let base ← parseDecoys decoys code
+    let o ← match present with
+      | "0" => some base
+      | "1" => some (base.update code (some v))
+      | "2" => some (base.update code none)
+      | _ => none
+    let r := render o d
+    pure (if r == "panic" then "panic" else "ok " ++ r)
+  | "v4setget", [ctor, arg, dflt] => do
+    let (_, acc, toBytes) ← constructors.find? (fun e => e.1 == ctor)
+    let (code, render) ← findAcc acc
+    let d ← dflt.toInt?
+    let r ← toBytes arg
+    pure (match r with
+      | .ok raw => s!"ok raw={hexOpt raw} get={render (GOpts.empty.update code raw) d}"
+      | .err => "err"
+      | .panic => "panic")
+  | "v4hist", ctor :: present :: h :: dflt :: steps => do
+    let (_, acc, toBytes) ← constructors.find? (fun e => e.1 == ctor)
+    let (code, render) ← findAcc acc
+    let v ← unhex h
+    let d ← dflt.toInt?
+    let o ← match present with
+      | "0" => some GOpts.empty
+      | "1" => some (GOpts.empty.update code (some v))
+      | "2" => some (GOpts.empty.update code none)
+      | _ => none
+    let kind := histKind ctor
+    let init : HState := { o := o, reg := if kind == "labels" then .labs Label.Labels.new [] else .toks [], outs := [] }
+    let st ← steps.foldlM (fun st s => if st.panicked then some st else histStep kind code render toBytes d st s) init
+    pure (if st.panicked || st.outs.contains "panic" then "panic" else "ok " ++ " | ".intercalate st.outs)
+  | _, _ => none
 
 end Dhcp.Driver
